@@ -129,10 +129,20 @@ def effLimit (limit : Option Int) : Int :=
   | none => Gen.Frame.collectAllValue
   | some l => if Gen.Frame.collectNegTest l then Gen.Frame.collectAllValue else l
 
+/-- The limit `DataFrame.collect` hands to `collect_cython`: after the normalisation the generated
+clamp `if <collectClampTest>: limit = <collectClampValue>` (a limit at or beyond the row count means all
+rows). -/
+def passedLimit (n : Nat) (limit : Option Int) : Int :=
+  if Gen.Frame.collectClampTest (effLimit limit) n then Gen.Frame.collectClampValue else effLimit limit
+
+/-- Does a limit fit the C type `collect_cython` declares its `limit` parameter with (`int` in
+compiled.pyx)?  A value outside raises `OverflowError` when the compiled function is entered. -/
+def limitFits (l : Int) : Bool := decide (Gen.Frame.collectLimitMin ≤ l ∧ l ≤ Gen.Frame.collectLimitMax)
+
 /-- Effective number of rows for `collect`'s limit: `collect_cython` truncates `num_rows` to the
 limit only under the generated test. -/
 def limitRows (n : Nat) (limit : Option Int) : Nat :=
-  if Gen.Frame.collectTruncTest (effLimit limit) n then (effLimit limit).toNat else n
+  if Gen.Frame.collectTruncTest (passedLimit n limit) n then (passedLimit n limit).toNat else n
 
 /-- `collect(columns, limit)`: `result[i][j] = rows[j][columns[i]]` for the first `limit` rows;
 `none` when a column index is out of range for some row (the real code raises). -/
